@@ -4,6 +4,9 @@ from .. import scenarios
 hubprops.PLAN["C18"] = [
     {"fam": "Stats", "num_q": 40, "num_t": 400, "depth": 120},
     {"fam": "stats-matrix", "scen": scenarios.stats_matrix, "num_q": 0, "num_t": 0, "prof_q": 1, "prof_t": 3},
+    # the manager started with send_msg_timing=False: no TIMING_MESSAGE, MESSAGE_TRAFFIC exactly as before
+    {"fam": "StatsNoTiming", "num_q": 15, "num_t": 150, "depth": 120, "prof_q": 1, "prof_t": 2, "timing": False},
+    {"fam": "stats-matrix-notiming", "scen": scenarios.stats_matrix, "num_q": 0, "num_t": 0, "prof_q": 1, "prof_t": 1, "timing": False},
 ]
 
 
